@@ -1,2 +1,3 @@
 import Generated.Constants
 import Generated.FastDivTab
+import Generated.Globals
